@@ -80,8 +80,13 @@ Stuck(s, k) ==
       winStrict == x.pBegun /\ ~x.pEnded /\ (x.initOut + x.framesOut) - x.peerNII < x.peerWin
       \* (a delivery abandoned by a cancelled send holds no claim to be continued)
       credit == (y.inDel /\ y.cancels = 0) \/ (y.limit >= 0 /\ y.dcS < y.limit)
+      \* (named deviation, open finding: a send dropped after it has taken its credit and before its first frame is handed to the session
+      \* keeps that credit for good -- the link's delivery-count runs one ahead of the deliveries on the wire.  The shortfall that
+      \* explains is at most one credit per send that was cancelled without ever reaching the wire.)
+      burnt == Cardinality({n \in DOMAIN y.sendq : y.sendq[n].canc /\ y.sendq[n].did = -1})
+      creditBurnt == (y.inDel /\ y.cancels = 0) \/ (y.limit >= 0 /\ y.dcS + burnt < y.limit)
   IN IF ~LiveE(x) \/ ~x.pBegun \/ x.pEnded THEN "no"
-     ELSE IF winStrict /\ credit THEN (IF x.devWin > 0 THEN "stuck" ELSE "stuck_dev_closed")
+     ELSE IF winStrict /\ credit THEN (IF ~creditBurnt THEN "stuck_dev_burnt" ELSE IF x.devWin > 0 THEN "stuck" ELSE "stuck_dev_closed")
      ELSE IF ~winStrict THEN "window" ELSE "credit"
 
 SetS(s, i, x) == [s EXCEPT !.ss[i] = x]
@@ -446,7 +451,7 @@ H_ApiCall(s, r, l) ==
        IF k = 0 THEN R(s, 0) ELSE R(SetL(s, k, [s.ls[k] EXCEPT !.sendsIssued = @ + 1, !.touched = TRUE, !.fSends = @ + 1,
                                                 \* owed: how many of the waiting deliveries have had credit at the same time (they have taken it)
                                                 !.owed = Max(@, Min(1 + Cardinality({n \in DOMAIN s.ls[k].sendq : s.ls[k].sendq[n].did = -1}), IF s.ls[k].limit >= 0 THEN Max(0, s.ls[k].limit - s.ls[k].dcS) ELSE 0)),
-                                                !.sendq = Append(@, [call |-> r.call, m |-> r.args.m, did |-> -1, presettled |-> (s.ls[k].snd = 1 \/ (s.ls[k].snd = 2 /\ r.args.settled = "t")), outcome |-> "none", done |-> FALSE, ret |-> FALSE])]), 0)
+                                                !.sendq = Append(@, [call |-> r.call, m |-> r.args.m, did |-> -1, presettled |-> (s.ls[k].snd = 1 \/ (s.ls[k].snd = 2 /\ r.args.settled = "t")), outcome |-> "none", done |-> FALSE, ret |-> FALSE, canc |-> FALSE])]), 0)
   ELSE IF r.op = "dispose" THEN
        LET k == LinkByName(s, r.lname, FALSE)
            st == CASE r.args.state = "accept" -> "accepted" [] r.args.state = "reject" -> "rejected" [] r.args.state = "release" -> "released" [] OTHER -> "modified" IN
@@ -584,7 +589,8 @@ H_ApiRet(s, r, l) ==
        IN RF(Chk("C02_OwnOutcome", ~owed, l, "error-instead"),
        \* a cancelled send may or may not have put its message on the wire: it is no longer owed
        SetL(s, k, [s.ls[k] EXCEPT !.sendsIssued = IF @ > s.ls[k].delsDone /\ (~s.ls[k].inDel \/ r.res.class = "Cancelled") THEN @ - 1 ELSE @,
-                                    !.cancels = IF r.res.class = "Cancelled" THEN @ + 1 ELSE @]))
+                                    !.cancels = IF r.res.class = "Cancelled" THEN @ + 1 ELSE @,
+                                    !.sendq = IF r.res.class = "Cancelled" /\ qi > 0 THEN [@ EXCEPT ![qi].canc = TRUE] ELSE @]))
   ELSE R(s, 0)
 
 \* ---------------------------------------------------------------- failures propagate (C14)
@@ -615,7 +621,7 @@ FailureClauses(s, r, l) ==
 \* ---------------------------------------------------------------- quiescence: obligations
 H_Quiesce(s, r, l) ==
   LET up == ConnUp(s) /\ ~s.hook          \* a task parked at an armed schedule point is not expected to make progress
-      stuck == {k \in DOMAIN s.ls : up /\ Stuck(s, k) \in {"stuck", "stuck_dev_closed"}}
+      stuck == {k \in DOMAIN s.ls : up /\ Stuck(s, k) \in {"stuck", "stuck_dev_closed", "stuck_dev_burnt"}}
       ls2 == [k \in DOMAIN s.ls |-> IF up /\ Stuck(s, k) \in {"window", "credit"} THEN [s.ls[k] EXCEPT !.blockedBy = Stuck(s, k)] ELSE s.ls[k]]
       fStuck == IF stuck = {} THEN 0 ELSE
                 LET k == CHOOSE k \in stuck : TRUE IN
@@ -623,9 +629,9 @@ H_Quiesce(s, r, l) ==
                 LET y == s.ls[k] x == s.ss[SessByE(s, y.ech)]
                     winSlack == x.peerWin - ((x.initOut + x.framesOut) - x.peerNII)
                     credSlack == y.limit - y.dcS
-                    who == IF y.blockedBy = "window" THEN "C07_Drain" ELSE IF y.blockedBy = "credit" THEN "C08_Wake"
+                    who == IF Stuck(s, k) = "stuck_dev_burnt" THEN "C08_Wake" ELSE IF y.blockedBy = "window" THEN "C07_Drain" ELSE IF y.blockedBy = "credit" THEN "C08_Wake"
                            ELSE IF winSlack <= credSlack THEN "C07_Drain" ELSE "C08_Wake"
-                IN Fail(who, l, IF Stuck(s, k) = "stuck" THEN "dev_ok" ELSE "dev_closed")
+                IN Fail(who, l, IF Stuck(s, k) = "stuck" THEN "dev_ok" ELSE IF Stuck(s, k) = "stuck_dev_burnt" THEN "dev_burnt" ELSE "dev_closed")
   IN R([s EXCEPT !.ls = ls2, !.panics0 = IF @ < 0 THEN r.panics ELSE @, !.lastAlive = r.alive, !.lastPending = Len(r.pending)],
          Chk("C12_CloseReply_Q", ~(s.oblClose /\ ~s.eeof), l, "")
        + Chk("C12_IllegalClosed_Q", ~s.illegal \/ s.ecloses > 0 \/ s.eeof \/ ~Listening(s), l, "")
